@@ -264,7 +264,8 @@ func ToIntSlice(backends [][]byte) ([]wallet.BackendID, error) {
 			return nil, fmt.Errorf("backend %d length is not 4 bytes", i)
 		}
 
-		var value int32
+		// The backend ID is written as an unsigned 32 bit number.
+		var value uint32
 		err := binary.Read(bytes.NewReader(backend), binary.BigEndian, &value)
 		if err != nil {
 			return nil, fmt.Errorf("failed to convert backend %d bytes to int: %w", i, err)
